@@ -16,7 +16,11 @@ import (
 )
 
 const nGoroutines = 16
-const focusSize = 12
+const focusSize = 8
+
+// Each of the 16 children (one per core) runs its 16 goroutines on 4 Ps: still truly parallel, but
+// 64 instead of 256 OS threads compete for the 16 cores (measured: ~30 % less CPU, same overlap).
+const childProcs = "4"
 
 func init() {
 	driver.Register(&driver.Engine{
@@ -30,7 +34,7 @@ func init() {
 		},
 		Run: run,
 		Variants: func(tier string) []driver.Variant {
-			return []driver.Variant{{Name: "race", Race: true, Env: []string{"GORACE=" + goraceValue()}}}
+			return []driver.Variant{{Name: "race", Race: true, Env: []string{"GORACE=" + goraceValue(), "GOMAXPROCS=" + childProcs}}}
 		},
 		MinDistinct: 400,
 		Finish:      finish,
